@@ -443,6 +443,7 @@ func (c *clientV2) SetReadyCount(count int64) {
 	if oldCount != count {
 		c.tryUpdateReadyState()
 	}
+	verif.Ev("KRdyDone", "k", c.ID, "n", count)
 }
 
 func (c *clientV2) tryUpdateReadyState() {
@@ -480,6 +481,7 @@ func (c *clientV2) PublishedMessage(topic string, count uint64) {
 
 func (c *clientV2) TimedOutMessage() {
 	atomic.AddInt64(&c.InFlightCount, -1)
+	verif.Ev("KTimedOut", "k", c.ID)
 	c.tryUpdateReadyState()
 }
 
